@@ -78,7 +78,7 @@ type Sim struct {
 	Fib   table.FibStrategy
 	// ingress is a real NDNLP link service (never started, no goroutines): harness packets enter
 	// through its frame decoder and dispatch code, exactly as frames from a transport do
-	ingress *face.NDNLPLinkService
+	ingress map[uint64]*face.NDNLPLinkService
 }
 
 // Options configure a fresh forwarder.
@@ -134,11 +134,28 @@ func New(o Options) *Sim {
 		go func() { <-fwfw.VerifPitCs(s.T).UpdateTimer() }()
 	}
 	core.ShouldQuit = false
+	s.ingress = map[uint64]*face.NDNLPLinkService{}
+	return s
+}
+
+// ingressFor returns the real link service that decodes frames for simulated face id (local
+// fields enabled, as management would enable them); it carries the face's own id, so the packet
+// it queues names the face the frame really arrived on.
+func (s *Sim) ingressFor(id uint64) *face.NDNLPLinkService {
+	if ls := s.ingress[id]; ls != nil {
+		return ls
+	}
 	opts := face.MakeNDNLPLinkServiceOptions()
 	opts.IsIncomingFaceIndicationEnabled = true
 	opts.IsConsumerControlledForwardingEnabled = true
-	s.ingress = face.MakeNDNLPLinkService(face.NewVerifTransport(defn.NonLocal, defn.PointToPoint, defn.MaxNDNPacketSize), opts)
-	return s
+	sc, lt := defn.NonLocal, defn.PointToPoint
+	if f := s.Faces[id]; f != nil {
+		sc, lt = f.Sc, f.LT
+	}
+	ls := face.MakeNDNLPLinkService(face.NewVerifTransport(sc, lt, defn.MaxNDNPacketSize), opts)
+	ls.SetFaceID(id)
+	s.ingress[id] = ls
+	return ls
 }
 
 // ErrIngressDropped: the link service did not queue the frame for the forwarding thread.
@@ -148,11 +165,21 @@ var ErrIngressDropped = errors.New("link service dropped the frame")
 // NextHopFaceId) to the real link-service receive path and returns the packet it queued for the
 // forwarding thread, re-attributed to the simulated face inFace.
 func (s *Sim) Ingest(wire []byte, inFace uint64, token []byte, nextHop *uint64) (*defn.Pkt, error) {
+	return s.IngestSpoof(wire, inFace, token, nextHop, nil)
+}
+
+// IngestSpoof is Ingest with an optional IncomingFaceId link-protocol header supplied by the peer
+// (a field only the forwarder itself ever attaches): it must not change where the packet is taken
+// to have arrived.
+func (s *Sim) IngestSpoof(wire []byte, inFace uint64, token []byte, nextHop *uint64, claimedInFace *uint64) (*defn.Pkt, error) {
 	frame := append([]byte{}, wire...)
-	if len(token) > 0 || nextHop != nil {
+	if len(token) > 0 || nextHop != nil || claimedInFace != nil {
 		var hdr []byte
 		if len(token) > 0 {
 			hdr = append(hdr, tlv(0x62, token)...)
+		}
+		if claimedInFace != nil {
+			hdr = append(hdr, tlv(0x032C, nat(*claimedInFace))...)
 		}
 		if nextHop != nil {
 			hdr = append(hdr, tlv(0x0330, nat(*nextHop))...)
@@ -165,13 +192,11 @@ func (s *Sim) Ingest(wire []byte, inFace uint64, token []byte, nextHop *uint64) 
 			break
 		}
 	}
-	face.VerifRecv(s.ingress, frame)
+	face.VerifRecv(s.ingressFor(inFace), frame)
 	p, _, ok := fwfw.VerifDequeue(s.T)
 	if !ok {
 		return nil, ErrIngressDropped
 	}
-	id := inFace
-	p.IncomingFaceID = &id
 	return p, nil
 }
 
